@@ -199,6 +199,26 @@ def run(ctx: Ctx) -> None:
                     ctx.violation(f"C01:{op}:default-arg-rejected:{name}", "default value of an unsupported argument rejected", key, raised)
                 vreqs.append({"k": "validate", "fn": op, "pos": [], "kw": [[name, repr(v if how == "keyword" else default) if val != "TENSOR" or how != "keyword" else "tensor"]]})
                 vcases.append((key, raised))
+    # values of a *supported* argument that the library does not implement (reduction='none'): rejected, or else the
+    # PyTorch result (shape included) up to the scalar - never silently something else
+    for op in ("cross_entropy", "mse_loss"):
+        for red in ("none",):
+            case = ops.gen_case(rng, op)
+            t = ops.make_inputs(case, 3)
+            key = {"op": op, "arg": "reduction", "value": red, "how": "keyword"}
+            ctx.count(key, bucket="unsupported-arg")
+            raised = None
+            out_ = None
+            try:
+                out_ = getattr(U, op)(t["input"], t["target"], reduction=red)
+            except Exception as e:  # noqa
+                raised = type(e).__name__
+            if raised is None:
+                ref_ = getattr(torch.nn.functional, op)(t["input"], t["target"], reduction=red)
+                if tuple(out_.shape) != tuple(ref_.shape):
+                    ctx.violation(f"C01:{op}:unsupported-value:reduction", "an unimplemented value of `reduction` is silently accepted and "
+                                  "the result does not have the shape of the PyTorch result", key,
+                                  {"got_shape": list(out_.shape), "want_shape": list(ref_.shape)})
     # positional binding of an unsupported parameter
     for op, args_fn, n_pos in (("dropout", lambda t: [t["input"], 0.5, True, True], 4),
                                ("silu", lambda t: [t["input"], 1.0, None, True], 4)):
